@@ -253,7 +253,14 @@ def analyse_op(model, f, tensor_init):
                 t = TObj(name)
                 args[name] = t
                 leaves.append(t)
-        for flags in itertools.product((False, True), repeat=len(leaves)):
+        # mode parameters (boolean defaults such as training=...): the flag algebra must hold in every mode
+        a_ = f.node.args
+        pos_ = a_.posonlyargs + a_.args
+        modes = [x.arg for x, d in zip(pos_[len(pos_) - len(a_.defaults):], a_.defaults) if isinstance(d, ast.Constant) and isinstance(d.value, bool)][:2]
+        for flags_modes in itertools.product(itertools.product((False, True), repeat=len(leaves)), itertools.product((False, True), repeat=len(modes))):
+            flags, mvals = flags_modes
+            for mname, mv in zip(modes, mvals):
+                args[mname] = mv
             val = {t.name: b for t, b in zip(leaves, flags)}
             preds = {'%s.requires_grad' % k: v for k, v in val.items()}
             preds.update({t.name: True for t in leaves})          # truthiness of a present operand
